@@ -323,29 +323,29 @@ theorem beforeValidatorSlashed_valid (v : ValId) (f : Dec) : PresR AssetsValid (
 /-- the in-memory asset list that `EndBlocker` threads through its hooks -/
 def ListValid (as : List Asset) : Prop := ∀ a ∈ as, AssetValid a
 
+theorem initStep_valid (now : Time) (a : Asset) (h : AssetValid a) : AssetValid (initStep now a) := by
+  unfold initStep
+  split
+  · exact h
+  · obtain ⟨h1, h2, h3, h4, h5, h6⟩ := h
+    exact ⟨h1, h2, h3, h4, h5, h6⟩
+
 theorem initializeAllianceAssets_valid (as : List Asset) (h : ListValid as) :
     PresR AssetsValid (initializeAllianceAssets as) ListValid := by
   unfold initializeAllianceAssets
   apply PresR.bind PresR.getW; intro w0 _
-  dsimp only []
   apply PresR.bind (R := Any)
   · apply PresR.forEachM
     intro a ha
     split
     · avalid_leaf
-    · apply setAsset_valid
-      obtain ⟨h1, h2, h3, h4, h5, h6⟩ := h a ha
-      exact ⟨h1, h2, h3, h4, h5, h6⟩
+    · exact setAsset_valid _ (initStep_valid _ a (h a ha))
   · intro _ _
     apply PresR.pure
     intro a ha
     rw [List.mem_map] at ha
     obtain ⟨b, hb, rfl⟩ := ha
-    have hv := h b hb
-    split
-    · exact hv
-    · obtain ⟨h1, h2, h3, h4, h5, h6⟩ := hv
-      exact ⟨h1, h2, h3, h4, h5, h6⟩
+    exact initStep_valid _ b (h b hb)
 
 theorem takeRateStep_valid (now : Time) (n : Nat) (a : Asset) (h : AssetValid a) : AssetValid (takeRateStep now n a) := by
   unfold takeRateStep
@@ -409,8 +409,8 @@ theorem updateAllianceAsset_valid (na : Asset) (h : CfgOK na) : PresR AssetsVali
     apply PresR.bind (PresR.guardE _ _); intro _ hrange
     apply PresR.bind (R := Any) (by avalid_leaf); intro _ _
     apply PresR.bind (R := Any) (by avalid_leaf); intro w1 _
-    dsimp only []
     apply setAsset_valid
+    unfold applyUpdate
     obtain ⟨h1, h2, h3, h4⟩ := h
     have hr : na.wmin ≤ na.weight ∧ na.weight ≤ na.wmax := by
       constructor
